@@ -223,9 +223,13 @@ func runC18A(e *Env, r *core.Run) {
 		i := i
 		sim.Spawn(func(task int) {
 			l := logs[i]
+			// Each task keeps ONE key buffer and overwrites it for every call, as a caller that
+			// decodes keys into a scratch variable does: the cache must not retain the pointer.
+			var kbuf curve.CompressedEdwardsY
 			for _, op := range scripts[i] {
 				rt.Yield(3900)
 				structural(l)
+				kbuf = p.comp[op.key]
 				var in model.LRUIn
 				var out model.LRUOut
 				in = model.LRUIn{Kind: op.kind, Key: op.key, Val: op.val}
@@ -233,7 +237,7 @@ func runC18A(e *Env, r *core.Run) {
 				if op.kind == 0 {
 					call = l.Ev("invoke Get(k%d)", op.key)
 					rt.EnterOp()
-					got := c.Get(&p.comp[op.key])
+					got := c.Get(&kbuf)
 					rt.ExitOp()
 					k, v := p.identify(got)
 					out = model.LRUOut{Key: k, Val: v}
@@ -251,8 +255,11 @@ func runC18A(e *Env, r *core.Run) {
 				} else {
 					call = l.Ev("invoke Put(k%d,v%d)", op.key, op.val)
 					rt.EnterOp()
-					c.Put(&p.comp[op.key], p.vals[op.key][op.val])
+					c.Put(&kbuf, p.vals[op.key][op.val])
 					rt.ExitOp()
+					for j := range kbuf {
+						kbuf[j] = 0xEE // the caller reuses its buffer
+					}
 					ret = l.Ev("return Put(k%d,v%d)", op.key, op.val)
 				}
 				r.Count(cA_ops)
